@@ -434,3 +434,7 @@ async fn forward_events_to_follower(
 
     info!("TCP connection to follower {} closed.", follower);
 }
+
+#[cfg(feature = "verif")]
+#[path = "../verif/leader_hooks.rs"]
+pub(crate) mod verif_hooks;
